@@ -31,9 +31,27 @@ func c01Prop(st *CaseStats, fam int) func(t *rapid.T) {
 		if d := Diff(c.Exp, obs, Facets{Postings: true, Counts: true}); d != "" {
 			t.Fatalf("case %s %s:\n  %s", sc, c.Desc, d)
 		}
+		labelsExtra := []string{}
+		if fam != FamWide && rapid.Bool().Draw(t, "buildLater") {
+			// the segment keeps answering the same whatever is built afterwards (pooled builder state)
+			for k := rapid.IntRange(1, 2).Draw(t, "nLater"); k > 0; k-- {
+				later := GenBatch(t, sc, 5)
+				if _, err := Build(later, sc.Norm, rapid.SampledFrom(ChunkModes).Draw(t, "laterMode")); err != nil {
+					t.Fatalf("case %s: later build: %v", sc, err)
+				}
+			}
+			obs2, err := Observe(c.Seg, ProbeFields, Facets{Postings: true, Counts: true})
+			if err != nil {
+				t.Fatalf("case %s %s: after later builds: %v", sc, c.Desc, err)
+			}
+			if d := Diff(c.Exp, obs2, Facets{Postings: true, Counts: true}); d != "" {
+				t.Fatalf("case %s %s:\n  after building other batches: %s", sc, c.Desc, d)
+			}
+			labelsExtra = append(labelsExtra, "re-observed-after-later-builds")
+		}
 		nt := c.Exp.N >= 2 && (c.Labels["multi-chunk"] || c.Labels["repeated-field"] || c.Labels["term-twice-in-field"] ||
 			c.Labels["loc-other-field"] || c.Labels["empty-term"] || c.Labels["binary-term"] || c.Labels["term>=1024-hits"])
-		st.Record(sc.String()+" "+c.Desc, nt, c.LabelList()...)
+		st.Record(sc.String()+" "+c.Desc, nt, append(c.LabelList(), labelsExtra...)...)
 	}
 }
 
@@ -82,4 +100,10 @@ func TestC01Mid(t *testing.T) {
 	st := NewStats("C01Mid", c01Rule)
 	defer st.Flush()
 	rapid.Check(t, c01Prop(st, FamMid))
+}
+
+func TestC01ManyFields(t *testing.T) {
+	st := NewStats("C01ManyFields", c01Rule)
+	defer st.Flush()
+	rapid.Check(t, c01Prop(st, FamManyFields))
 }
